@@ -914,6 +914,35 @@ def s_wiring(P, E):
             r.violate((ob.nid, "entry does not unsubscribe the returned observer"),
                       "the action registered by new_observer does not unsubscribe exactly the observer it hands out (or is not "
                       "registered on every path): finalize() cannot stop that upstream", body=ob)
+    # (relay) the observer handed to the source only relays: each of its three callbacks calls the operator's handler and does
+    # nothing else with the controller (no teardown, no map access, no delivery of its own) - what happens on an upstream event
+    # is the handler's decision alone (observe_on's handler merely *posts* the event: a teardown here would overtake it)
+    if len(news) == 1:
+        for i, role in ((0, "next"), (1, "error"), (2, "complete")):
+            cl = news[0].arg_closure(i)
+            cb = P.bodies.get(cl) if cl else None
+            if cb is None:
+                r.error("S-wiring: %s callback of the registered observer is not a closure" % role)
+                continue
+            extra = []
+            acqs = cb.guards()[0]
+            for c in cb.calls:
+                a = atom(c)
+                if a is not None and a not in ("fw_call",):
+                    extra.append(a)
+                elif c.path.startswith("std::collections::"):
+                    extra.append(c.path.split("::")[-1])
+            extra += ["lock"] * len(acqs)
+            hcalls = [c for c in cb.calls if c.indirect or c.path.startswith("std::ops::Fn") or atom(c) == "fw_call"]
+            r.instance((ob.nid, "relay", role), True, "handler calls %s, other effects %s" % ([c.bb for c in hcalls], extra))
+            if extra:
+                r.violate((ob.nid, "registered observer does more than relay", role),
+                          "the %s callback of the observer new_observer hands to the source also does [%s] itself: teardown / delivery "
+                          "decisions belong to the operator's handler (a handler that defers its event - observe_on - is overtaken)"
+                          % (role, ", ".join(sorted(set(extra)))), body=cb)
+            if not hcalls or Effects.path_avoiding(cb, cb.returns, [c.bb for c in hcalls]) is not None:
+                r.violate((ob.nid, "registered observer does not call the handler", role),
+                          "the %s callback of the observer new_observer hands out does not call the operator's handler on every path" % role, body=cb)
     # (abort)
     rem = [c for c in ab.calls if c.path == "std::collections::HashMap::remove"
            and any(path[:1] == ("unscribers",) for (_, _, path) in ab.operand_prov(c.args[0]))]
